@@ -56,6 +56,17 @@ pub fn check_pair(c: &Pair) -> CheckResult {
     ensure!(files[0].1 == files[1].1, "cleartext fields differ between two sender/recipient pairs given the same ephemeral key, plaintext and reads");
     ok(!p.is_empty() && (c.s1, c.r1) != (c.s2, c.r2), format!("key/{}chunks", files[0].2.len().min(4)))
 }
+/// Same sender, same supplied payload key, ephemeral key left to the implementation: every file must still get its own
+/// ephemeral key (a header field derived from the sender and the payload key would link the files of one sender).
+pub fn check_ponly(c: &Pair) -> CheckResult {
+    let p = c.plain.bytes(); let pl = gen::key32(c.p, "P"); let s = kx::ident(c.s1, "S");
+    let mut eph = Vec::new();
+    for r in [c.r1, c.r2, c.r1] { let r = kx::ident(r, "R");
+        let (res, sh) = kx::key_encrypt(&p, &c.prs, &WSched::all(), None, &s.sk, &s.pk, &r.pk, None, Some(&pl)); ensure!(res.is_ok(), "key_encrypt failed: {:?}", res);
+        let f = sh.sink.take(); let reads = read_sizes(&sh); layout(&f, 132, &reads, p.len())?; eph.push(f[4..36].to_vec()); }
+    ensure!(eph[0] != eph[1] && eph[0] != eph[2] && eph[1] != eph[2], "with the payload key supplied and the ephemeral key left to the implementation, two files of the same sender carry the same ephemeral public key");
+    ok(true, "ponly/fresh-ephemeral")
+}
 pub fn check_pass_pair(c: &PassPair) -> CheckResult {
     let p = c.plain.bytes(); let salt = gen::key32(c.salt, "salt"); let mut files = Vec::new();
     for w in [&c.w1, &c.w2] {
@@ -93,6 +104,7 @@ pub fn run(ctx: &Ctx) {
     ctx.assume("needles are >= 12 bytes so a chance occurrence has probability < 2^-64");
     let max = if ctx.quick() { 300_000 } else { 2 << 20 };
     ctx.pbt("identity_swap_pairs", ctx.n(25_000, 300_000), || (gen::plain_strategy(max), any::<[u64; 6]>()).prop_flat_map(|(plain, k)| { let l = plain.len; (Just(plain), gen::rsched_for(l), Just(k)) }).prop_map(|(plain, prs, k)| Pair { plain, prs, s1: k[0], r1: k[1], s2: k[2], r2: k[3], e: k[4], p: k[5] }), check_pair);
+    ctx.pbt("payload_given_ephemeral_fresh", ctx.n(4_000, 100_000), || (gen::small_plain(300), gen::rsched_strategy(), any::<[u64; 6]>()).prop_map(|(plain, prs, k)| Pair { plain, prs, s1: k[0], r1: k[1], s2: k[2], r2: k[3], e: k[4], p: k[5] }), check_ponly);
     ctx.pbt("password_swap_pairs", ctx.n(100, 2_000), || (gen::small_plain(400), gen::rsched_strategy(), gen::password_strategy(), gen::password_strategy(), any::<u64>()).prop_map(|(plain, prs, w1, w2, salt)| PassPair { plain, prs, w1, w2, salt }), check_pass_pair);
     ctx.shrink_iters.store(20, std::sync::atomic::Ordering::Relaxed);
     ctx.pbt("cli_files", ctx.n(40, 800), || (prop_oneof![3 => 0usize..3000, 1 => Just(CS), 1 => Just(CS + 1), 1 => CS..3 * CS], ("[a-zA-Z0-9]{12,24}", "[a-zA-Z0-9]{12,24}"), any::<u64>(), prop::bool::weighted(0.25), any::<bool>()).prop_map(|(len, names, seed, pass_mode, to_stdout)| CliCase { len, names, seed, pass_mode, to_stdout }), check_cli);
